@@ -33,7 +33,8 @@ TECHNIQUE = (
 RULE = (
     "full product of data class (catalogue random series; damped oscillators |lambda| in {0.7,0.9} x arg in {0.3,0.5,1.2} plus a real "
     "decaying mode, mixed into 3/5/6 features, noise-free and 1% noise; growing oscillators |lambda| in {1.01,1.05}, noise-free) x (use_pca=False | use_pca=True x n_pca_modes in {2,3,4,'all'}) "
-    "x center x standardize (thorough: x use_coslat x weights, more series) x units (variables with index >= 2 multiplied by 1, 1e-3 or 1e-5 after "
+    "x center x standardize (thorough: x use_coslat x weights, more series) x provenance of the model object (fresh | transform called before | "
+    "refitted on another series after a transform | refitted on the same series after a transform; on the random series and a subset of the oscillators; quick: standardize=False there) x units (variables with index >= 2 multiplied by 1, 1e-3 or 1e-5 after "
     "the series is built: an ill-scaled lag-0 covariance; quick: units != 1 on the random series and on the noise-free oscillators r in {0.9,1.01}, arg 0.5, "
     "p in {3,5} plus one noisy one; thorough: on every series, default coslat/weights); a case is non-trivial when the fit returned and the eigen-relation, "
     "pairing, period/damping formulae, ordering and transform=scores clauses were all evaluated on >= 2 modes; cases whose lag-0 covariance is "
@@ -47,9 +48,10 @@ ASSUMPTIONS = [
     "lag-0 covariance over all N samples (equal normalisers, per-term means, or ddof=1 normalisers) and segment-centred covariances; one convention must fit all modes of a fit",
     "negative real eigenvalues: period 2 (formula) and inf (parenthetical of the statement) are both accepted",
     "a change of units of some variables (x 1e-3, x 1e-5) leaves the statement untouched; residuals are measured in equilibrated coordinates of the retained series",
+    "provenance: the whole oracle is evaluated on the state after the last fit; whether unrelated answers depend on history is C14, deferred fits are C12",
     "n_pca_modes given as a float (variance fraction) is not enumerated: the number of PCs it selects belongs to C15/C16; solver_kwargs is never passed (C15)",
 ]
-TALLY_KEYS = ("kind", "r", "units", "use_pca", "n_pca_modes", "noise", "center", "standardize")
+TALLY_KEYS = ("kind", "prov", "r", "units", "use_pca", "n_pca_modes", "noise", "center", "standardize")
 TRUSTED = ["statsmodels import shim not used here"]
 
 GRID = {3: (3, 1), 4: (2, 2), 5: (5, 1), 6: (3, 2)}
@@ -94,6 +96,23 @@ def _ill_scaled_subset(ds, tier):
     return (ds["r"] in (0.9, 1.01) and not ds["noise"]) or (ds["r"] == 0.9 and ds["shape"][1] == 3)
 
 
+# history of the POP object before the observations are taken:
+#   fresh            POP(); fit(A)
+#   transform_before POP(); fit(A); transform(A)
+#   refit_other      POP(); fit(B); transform(B); fit(A)          (B: another series of the same class, same labels)
+#   refit_same       POP(); fit(A); transform(A); fit(A)
+PROVENANCE = ("fresh", "transform_before", "refit_other", "refit_same")
+
+
+def _history_subset(ds, tier):
+    """Which series are also observed on a model object with a history."""
+    if ds["kind"] == "random":
+        return True
+    if tier != "quick":
+        return ds["shape"][0] == N_OSC
+    return ds["r"] == 0.9 and ds["theta"] == 0.5 and ((ds["shape"][1] == 5 and ds["noise"]) or (ds["shape"][1] == 3 and not ds["noise"]))
+
+
 def cases(tier, seed):
     out = []
     flags = list(itertools.product([True, False], [False, True]))  # center, standardize
@@ -108,7 +127,19 @@ def cases(tier, seed):
                 for c, s in flags:
                     for cl, w in extra if units == 1.0 else [(False, False)]:
                         out.append(dict(model="POP", use_pca=use_pca, n_pca_modes=k, center=c, standardize=s, coslat=cl, weights=w, units=units, **ds))
-    # simplest first: natural units, fewer PCs, default flags
+    # provenance of the model object the clauses are evaluated on (units 1, default coslat/weights)
+    for prov in PROVENANCE[1:]:
+        for ds in _datasets(tier):
+            if not _history_subset(ds, tier):
+                continue
+            p = ds["shape"][1]
+            pcas = [(False, None)] + [(True, k) for k in (2, 3, 4) if k <= p] + [(True, "all")]
+            for use_pca, k in pcas:
+                for c, s in flags:
+                    if tier == "quick" and s:
+                        continue  # quick: histories with standardize=False only
+                    out.append(dict(model="POP", use_pca=use_pca, n_pca_modes=k, center=c, standardize=s, coslat=False, weights=False, units=1.0, prov=prov, **ds))
+    # simplest first: fresh model, natural units, fewer PCs, default flags
     return out
 
 
@@ -137,10 +168,11 @@ def build_matrix(case, seed):
     return X
 
 
-def build_input(case, seed):
+def build_input(case, seed, other=False):
+    """other=True: series B of the same class and labels (another draw of the orthogonal factors / mixing matrix)."""
     import xarray as xr
 
-    X = build_matrix(case, seed)
+    X = build_matrix(case, seed + 7919 if other else seed)
     n, p = X.shape
     if case.get("units", 1.0) != 1.0:  # change of units of the variables with index >= 2 (exact: eigenvalues of C1 C0^-1 do not depend on it)
         u = np.ones(p)
@@ -152,7 +184,7 @@ def build_input(case, seed):
     wvec = wda = None
     if case["weights"]:
         rng = np.random.default_rng([int(seed), 77, p])
-        wvec = 0.5 + rng.random(p) * 2.0
+        wvec = 0.5 + rng.random(p) * 2.0  # the same weights for series A and B
         wda = xr.DataArray(wvec.reshape(nlat, nlon), dims=("lat", "lon"), coords={"lat": da.lat, "lon": da.lon})
     cl = np.repeat(R.sqrt_coslat(lats), nlon) if case["coslat"] else None
     return X, da, wda, wvec, cl
@@ -241,6 +273,9 @@ def run_case(case, seed):
     feats = dict(use_pca=case["use_pca"], kind=case["kind"])
     if case.get("units", 1.0) != 1.0:
         feats["rescaled_variables"] = True
+    prov = case.get("prov", "fresh")
+    if prov != "fresh":
+        feats["provenance"] = prov
     V = []
 
     def bad(check, msg, **extra):
@@ -248,7 +283,17 @@ def run_case(case, seed):
 
     with warnings.catch_warnings():
         warnings.simplefilter("ignore")
+        first = None
+        if prov == "refit_other":
+            _, da_b, wda_b, _, _ = build_input(case, seed, other=True)
+            m.fit(da_b, dim="time", weights=wda_b)
+            first = m.transform(da_b)
+        elif prov == "refit_same":
+            m.fit(da, dim="time", weights=wda)
+            first = m.transform(da)
         m.fit(da, dim="time", weights=wda)
+        if prov == "transform_before":
+            first = m.transform(da)
         comps = m.components()
         lam_da = m.eigenvalues()
         T_da = m.periods()
@@ -383,7 +428,11 @@ def run_case(case, seed):
         if not (eT <= 1e-8 and etau <= 1e-8):
             bad("truth_recovery", "noise-free oscillator: periods %s vs true %s, damping times %s vs true %s" % (T_got, T_true, tau_got, tau_true))
 
-    info = dict(k=k, pca=bool(case["use_pca"]), estimator=conv, residual=float(res.max()), n_complex=len(cplx), cond=ref["cond"], raw_cond=ref["raw_cond"], gap=ref["gap"], exact=bool(exact), max_abs_lambda=float(np.abs(lam).max()))
+    moved = None
+    if first is not None:  # how far the earlier transform result is from the final coefficients (refit_other must move)
+        F = D.to_matrix(first, ["time"], ["mode"], lab).astype(complex)
+        moved = float(D.relerr(F, S, scale=max(np.abs(S).max(), 1e-300)))
+    info = dict(k=k, prov=prov, moved=moved, pca=bool(case["use_pca"]), estimator=conv, residual=float(res.max()), n_complex=len(cplx), cond=ref["cond"], raw_cond=ref["raw_cond"], gap=ref["gap"], exact=bool(exact), max_abs_lambda=float(np.abs(lam).max()))
     return dict(violations=V, outcome="violation" if V else ("ok:exact" if exact else "ok"), nontrivial=not V and k >= 2 and P.size > 0 and S.size > 0, info=info)
 
 
@@ -408,6 +457,13 @@ def vacuity(outcomes, results, tier):
             return "no ill-scaled noise-free oscillator reached the truth-recovery clause"
         if not ({True, False} <= {bool(i.get("pca")) for i in ill}):
             return "ill-scaled lag-0 covariances were not seen both with and without PCA"
+        for pv in PROVENANCE:
+            for pca in (True, False):
+                sel = [i for i in infos if i.get("prov") == pv and bool(i.get("pca")) == pca]
+                if not sel:
+                    return "transform = scores was never evaluated for provenance %s with use_pca=%s" % (pv, pca)
+                if pv == "refit_other" and not any((i.get("moved") or 0.0) > 1e-2 for i in sel):
+                    return "refit_other (use_pca=%s): the series of the first fit never gave different coefficients" % pca
         if len({i.get("k") for i in infos}) < 3:
             return "fewer than three distinct numbers of retained PCs were exercised"
     return None
